@@ -4,6 +4,11 @@ from checks.c01 import replay_generic
 from checks.c13 import index_objects
 
 
+def btrace_key(key):
+    from vlib import btrace
+    return btrace.harness_key(key)
+
+
 def build(v, suite, ops, rnd, tier, h, d):
     full, sample = (40, 18) if tier == "quick" else (400, 120)
     for s in suite:
@@ -45,6 +50,24 @@ def build(v, suite, ops, rnd, tier, h, d):
                 ops.add(s["name"], "scan_range", key=key, to=tok, stop=2, meta={"cls": "scan_range/%s/%s" % (s["name"], name)}, **kw)
 
 
+    # from-key scans on the deepest indexes, stopped at EVERY row of a long stretch (the stop has to travel up through
+    # every level: a row under the right-most pointer of a non-root interior page is the delicate one)
+    for s in suite:
+        if s["name"].startswith("P"):
+            continue
+        tdb = s["tdb"]
+        objs = sorted(index_objects(s), key=lambda o_: -len(tdb.order[tdb.root(o_[0])]))[: (2 if tier == "quick" else 6)]
+        for name, is_table, kd, t, ix in objs:
+            root = tdb.root(name)
+            n = len(tdb.order[root])
+            if n < 60:
+                continue
+            kw = dict(obj=name) if is_table else dict(index=name)
+            keys = bf.cut_keys(tdb, root, len(kd), rnd, 3 if tier == "quick" else 8)
+            for k in keys[:3] if tier == "quick" else keys:
+                key = [(val, kd[i][0], kd[i][1]) for i, val in enumerate(k[:len(kd)])]
+                for stop in range(1, min(n, 140 if tier == "quick" else 600) + 1):
+                    ops.add(s["name"], "scan_min", key=key, stop=stop, meta={"cls": "scan_min/%s/%s/every-stop" % (s["name"], name)}, **kw)
     # histories on ONE handle: a stopped scan is the first visit of the pages, later stopped scans (other k) and the same
     # k again follow while the page cache is warm -- a stop must leave nothing half-done behind
     ng = 0
